@@ -127,10 +127,11 @@ ObsTab(i, o) ==
       ents == {x1[1] : x1 \in en} \cup ShareEntries(i)
   IN [loc |-> loc, prf |-> {x1[1] : x1 \in en}, tapes |-> TapesOver(i, en, ents)]
 
-\* ---- tables kept in TLC register 2 (computed once in an ASSUME) -----------
+\* ---- tables kept in TLC register 2 (computed by each worker at its first step) ------------------
 PrivTablesDef(u) == TLCEval([i \in 1..NP |-> TLCEval([o \in Observers |-> TLCEval(ObsTab(i, o))])])
-ASSUME PrivTablesComputed == TLCSet(2, PrivTablesDef(0))
-Tab(i, o) == TLCGet(2)[i][o]
+ASSUME PrivRegisterInitialised == TLCSet(2, [ready |-> FALSE])
+PrivTablesReady == IF TLCGet(2).ready THEN TRUE ELSE TLCSet(2, [ready |-> TRUE, tab |-> PrivTablesDef(0)])
+Tab(i, o) == TLCGet(2).tab[i][o]
 
 \* ---- views ----------------------------------------------------------------
 InputsKnownTo(i, o) == {k \in 1..Len(Progs[i].owners) : Progs[i].owners[k] \in {"pub", ToString(o)}}
@@ -169,10 +170,15 @@ AllInputs(i) == AllSeqs(SrcInputTypes(i))
 Classes(i, o) == {Entitled(i, o, xs) : xs \in AllInputs(i)}
 Members(i, o, c) == {xs \in AllInputs(i) : Entitled(i, o, xs) = c}
 
-PInit == /\ pg \in 1..NP /\ obs \in Observers /\ cls \in Classes(pg, obs) /\ done = FALSE
+PInit == /\ pg \in 1..NP /\ obs \in Observers /\ cls = <<>> /\ done = FALSE
          /\ run = 0 /\ g = 0 /\ x = <<>> /\ pc = 0 /\ store = <<>> /\ orc = <<>>
-\* one step per class: TLC evaluates invariants of successor states in its worker threads
-PNext == done = FALSE /\ done' = TRUE /\ UNCHANGED <<pg, obs, cls, vars>>
+\* first step: pick a class (needs the tables, which a worker computes at its first step);
+\* second step: done -- TLC evaluates the invariant of successor states in its worker threads
+PickClass == /\ TablesReady /\ PrivTablesReady
+             /\ cls = <<>> /\ cls' \in Classes(pg, obs) /\ UNCHANGED <<pg, obs, done, vars>>
+Judge == /\ TablesReady /\ PrivTablesReady
+         /\ cls # <<>> /\ done = FALSE /\ done' = TRUE /\ UNCHANGED <<pg, obs, cls, vars>>
+PNext == PickClass \/ Judge
 PSpec == PInit /\ [][PNext]_<<pvars, vars>>
 
 \* all members of a class induce the same distribution of views
